@@ -128,6 +128,15 @@ func c01Case(w *fw.W, idx int, r *fw.Rand) {
 			}
 		}
 	}
+	if idx >= len(c01Deterministic) && r.P(1, 8) {
+		// values without compiled code (decoded from JSON / host-made), some of them recursive;
+		// the input then refers to them
+		c07InstallLazy(vm, r)
+		src = r.Pick([]string{"lx", "lf(0)", "ghp", "gself + 1", "lok(2) + gok", "lx + ", "d + lf(1)", "`{lx}`", "[gok, gfresh, lok(1)]"}) + r.Pick([]string{"", "", "; " + src})
+		fam = "lazy-values"
+		desc = fmt.Sprintf("cfg=%s prior=%q call=%s lazy-values src=%q", cfg, prior, call, src)
+		w.Begin(idx, desc)
+	}
 	aborted := false
 	guard := func(what string, f func()) bool {
 		pv, st := fw.Guard(f)
